@@ -2,6 +2,8 @@
 //! recording, scripted MetricSink and a logging error handler.
 //!
 //! case:  X <prefix> <dtags> <dcid> <script> <ncalls> { <form> <kind> <arg> <key> <ops> }*
+//!        Y ...                                               (as X, the client built with StatsdClient::from_sink: no defaults,
+//!                                                              no handler; forms T and P only)
 //!        K <kind> <prefix> <key> <arg>                       (standalone constructors)
 //!        F <bits>;<bits>;...                                 (std Display text of f64 bit patterns)
 //!   strings are hex ("_" = empty); "~" = None; "-" = empty list
@@ -322,6 +324,21 @@ pub fn parse_script(s: &str) -> VecDeque<SinkOutcome> {
     q
 }
 
+/// the same recording client, constructed with StatsdClient::from_sink (no defaults, no error handler)
+pub fn build_client_from_sink(prefix: &str, script: &str) -> Built {
+    let log = Arc::new(Mutex::new(vec![]));
+    let handled = Arc::new(Mutex::new(vec![]));
+    let sink = RecSink {
+        log: log.clone(),
+        script: Arc::new(Mutex::new(parse_script(script))),
+    };
+    Built {
+        client: StatsdClient::from_sink(&unhex0(prefix), sink),
+        log,
+        handled,
+    }
+}
+
 pub fn build_client(prefix: &str, dtags: &str, dcid: &str, script: &str) -> Built {
     let log = Arc::new(Mutex::new(vec![]));
     let handled = Arc::new(Mutex::new(vec![]));
@@ -364,7 +381,12 @@ pub fn parse_form(s: &str) -> Form {
 }
 
 fn run_x(t: &[&str]) -> String {
-    let built = build_client(t[1], t[2], t[3], t[4]);
+    let built = if t[0] == "Y" {
+        assert!(t[2] == "-" && t[3] == "~", "Y cases have no defaults");
+        build_client_from_sink(t[1], t[4])
+    } else {
+        build_client(t[1], t[2], t[3], t[4])
+    };
     let n: usize = t[5].parse().unwrap();
     let mut out = vec![];
     for i in 0..n {
@@ -440,7 +462,7 @@ fn run_f(t: &[&str]) -> String {
 pub fn run_case(line: &str) -> String {
     let t: Vec<&str> = line.split_whitespace().collect();
     match t[0] {
-        "X" => run_x(&t),
+        "X" | "Y" => run_x(&t),
         "K" => run_k(&t),
         "F" => run_f(&t),
         _ => panic!("bad wire case"),
